@@ -52,6 +52,47 @@ var drivers = []driver{
 	{name: "runtime-error", src: "out := a + \"x\"", inputs: map[string]interface{}{"a": 1}, wantOut: "", reset: map[string]interface{}{"a": 1}},
 }
 
+// generated drivers: every loop form x every body statement (the "any running script" quantifier, bounded);
+// all are finite-state (values wrap) and spin until the host clears `spin`.
+var genForms = []struct{ name, pre, open, close string }{
+	{"while", "", "for spin { ", " }"},
+	{"for-break", "", "for { if !spin { break }; ", " }"},
+	{"for-3", "", "for i := 0; spin; i = (i+1)%2 { ", " }"},
+	{"for-in-array", "", "for spin { for x in arr { ", " } }"},
+	{"for-in-string", "", "for spin { for ch in \"ab\" { ", " } }"},
+	{"tailrec", "", "f := func(k) { ", "; return f((k+1)%2) }; if spin { f(0) }"},
+	{"call-in-loop", "", "g := func() { ", " }; for spin { g() }"},
+	{"iife-in-loop", "", "for spin { func() { ", " }() }"},
+}
+
+var genBodies = []struct{ name, src string }{
+	{"arith", "n = (n+1)%3"},
+	{"builtin", "n = len(arr)"},
+	{"index-assign", "arr[0] = (arr[0]+1)%2"},
+	{"if-else", "if n == 0 { n = 1 } else { n = 0 }"},
+	{"error-value", "n = is_error(error(n)) ? 0 : 1"},
+	{"map-alloc", "m := {a: n}; n = (m.a+1)%2"},
+	{"string-concat", "s := \"x\" + n; n = len(s)%2"},
+	{"array-literal", "n = [1, 2, 0][n%3]"},
+	{"closure-call", "n = (func(x) { return (x+1)%3 })(n)"},
+	{"slice", "n = len(arr[n%2:])"},
+}
+
+func genDrivers() []driver {
+	var out []driver
+	for _, f := range genForms {
+		for _, b := range genBodies {
+			out = append(out, driver{
+				name: "gen/" + f.name + "/" + b.name,
+				src:  "out := 0; " + f.pre + f.open + b.src + f.close + "; out = 7",
+				inputs: map[string]interface{}{"spin": true, "n": 0, "arr": []interface{}{1, 2}},
+				infinite: true, wantOut: "int:7", reset: map[string]interface{}{"spin": false},
+			})
+		}
+	}
+	return out
+}
+
 type vmInfo struct {
 	v          *tengo.VM
 	thread     int
@@ -246,6 +287,16 @@ func (w *world) globalsKey() string {
 		}
 		sb.WriteString(n + "=" + val.StateKey(o) + ";")
 	}
+	// block-scoped globals have no entry in the name table
+	named := map[int]bool{}
+	for _, i := range idx {
+		named[i] = true
+	}
+	for i, o := range gl {
+		if o != nil && !named[i] {
+			fmt.Fprintf(&sb, "#%d=%s;", i, val.StateKey(o))
+		}
+	}
 	return sb.String()
 }
 
@@ -355,7 +406,7 @@ func main() {
 			var c Case
 			_ = report.Recase(raw, &c)
 			fmt.Printf("driver %s: %s: %s\nschedule: %v\n", c.Driver, c.Kind, c.Msg, c.Schedule)
-			for _, d := range drivers {
+			for _, d := range append(append([]driver{}, drivers...), genDrivers()...) {
 				if d.name != c.Driver {
 					continue
 				}
@@ -395,8 +446,19 @@ func main() {
 	}
 	var states, trans, execs, terms, branching int64
 	outcomes := report.NewDistinctSet()
+	all := append([]driver{}, drivers...)
+	for i, d := range genDrivers() {
+		// quick: a diagonal of the form x body grid; thorough: the whole grid
+		if r.Thorough() || (i/len(genBodies)+i%len(genBodies))%4 == 0 {
+			all = append(all, d)
+		}
+	}
+	r.Set("generated_drivers", map[string]interface{}{"loop_forms": len(genForms), "bodies": len(genBodies), "explored": len(all) - len(drivers)})
 	for _, observer := range []bool{false, true} {
-		for _, d := range drivers {
+		for _, d := range all {
+			if observer && !r.Thorough() && strings.HasPrefix(d.name, "gen/") {
+				continue
+			}
 			res := vsched.Explore(harness{d: d, observer: observer}, vsched.Options{MaxStates: r.Pick(300000, 3000000)})
 			tengo.VerifNewVM = nil
 			states += int64(res.States)
